@@ -98,6 +98,9 @@ func (c *Ctx) Walk(rule string, fn *ssa.Function, visit func(p *walk.Path)) {
 		return
 	}
 	w := walk.New(c.P, fn)
+	if c.Tier == "thorough" {
+		w.MaxVisit = 3 // two trips round every loop instead of one
+	}
 	w.Run(visit)
 	c.R.Funcs[prog.Name(fn)] = true
 	c.R.Paths += w.Paths
